@@ -348,6 +348,165 @@ impl Phase for RandomPairs {
     }
 }
 
+/// Back-to-back evaluations whose operands are equal under `==` but are different values (the sign of zero, an integer
+/// and the float of the same magnitude, one NaN and another): the second must not inherit anything from the first.
+struct Twins {
+    trees: Trees,
+    partners: Vec<RV>,
+}
+
+fn twin_pairs() -> Vec<(RV, RV)> {
+    let f = RV::Float;
+    let i = RV::Int;
+    let base = vec![
+        (f(0.0), f(-0.0)),
+        (i(0), f(0.0)),
+        (i(0), f(-0.0)),
+        (i(1), f(1.0)),
+        (i(-1), f(-1.0)),
+        (i(2), f(2.0)),
+        (i(3), f(3.0)),
+        (i(1 << 53), f(9007199254740992.0)),
+        (i(i64::MAX), f(9223372036854775807.0)),
+        (i(i64::MIN), f(-9223372036854775808.0)),
+        (f(f64::NAN), f(-f64::NAN)),
+        (RV::Str("".into()), RV::Empty),
+        (RV::Tuple(vec![f(0.0)]), RV::Tuple(vec![f(-0.0)])),
+        (RV::Tuple(vec![i(1)]), RV::Tuple(vec![f(1.0)])),
+    ];
+    let mut all = Vec::new();
+    for (a, b) in base {
+        all.push((a.clone(), b.clone()));
+        all.push((b, a));
+    }
+    all
+}
+
+impl Phase for Twins {
+    fn name(&self) -> String {
+        "back-to-back evaluations on ==-equal but different operands (sign of zero, int/float twins)".into()
+    }
+    fn len(&self) -> u64 {
+        (twin_pairs().len() * self.partners.len()) as u64
+    }
+    fn exhaustive(&self) -> bool {
+        true
+    }
+    fn run(&mut self, idx: u64, _r: &mut Rng, out: &mut Out) {
+        let pairs = twin_pairs();
+        let (a1, a2) = &pairs[idx as usize / self.partners.len()];
+        let p = &self.partners[idx as usize % self.partners.len()];
+        out.begin(|| format!("twins {} / {} against {}", a1.show(), a2.show(), p.show()));
+        for opi in 0..BINOPS.len() {
+            let op = BINOPS[opi];
+            let t = match &self.trees.bin[opi] {
+                Some(t) => t,
+                None => continue,
+            };
+            for side in 0..3 {
+                // the twin on the left, on the right, on both sides
+                let (x1, y1, x2, y2) = match side {
+                    0 => (a1, p, a2, p),
+                    1 => (p, a1, p, a2),
+                    _ => (a1, a1, a2, a2),
+                };
+                let c1 = ctx_ab(x1, y1);
+                let c2 = ctx_ab(x2, y2);
+                let g1 = api::eval_tree(t, &c1);
+                let g2 = api::eval_tree(t, &c2);
+                out.evals(2);
+                out.count("twin evaluations");
+                let (e1, e2) = (refop(op, x1, y1), refop(op, x2, y2));
+                out.nontrivial(&format!("{} {} {} | {} {}", x1.show(), op, y1.show(), x2.show(), y2.show()));
+                if !accept(&e1, &g1) || !accept(&e2, &g2) {
+                    out.violation(
+                        "binary-operator/back-to-back",
+                        format!("a {} b with a={} b={} and directly afterwards with a={} b={}", op, x1.show(), y1.show(), x2.show(), y2.show()),
+                        format!("{} then {}", show_exp(&e1), show_exp(&e2)),
+                        format!("{} then {}", g1.show(), g2.show()),
+                    );
+                }
+            }
+        }
+    }
+}
+
+/// A tree precompiled from literals and then edited through the public `children_mut` / `operator_mut`: what is
+/// evaluated are the operands and the operator the tree holds now.
+struct EditedTrees {
+    n: u64,
+    donors: Trees,
+}
+
+impl Phase for EditedTrees {
+    fn name(&self) -> String {
+        "trees built from literals, evaluated, edited in place (operands, operator) and evaluated again".into()
+    }
+    fn len(&self) -> u64 {
+        self.n
+    }
+    fn run(&mut self, _idx: u64, r: &mut Rng, out: &mut Out) {
+        use evalexpr::Operator;
+        let firsts = [RV::Int(2), RV::Int(3), RV::Int(i64::MAX), RV::Int(7), RV::Int(0), RV::Float(2.5), RV::Float(0.0), RV::Bool(true), RV::Str("s".into())];
+        let (a0, b0) = (r.pick(&firsts).clone(), r.pick(&firsts).clone());
+        let opi = r.below(BINOPS.len());
+        let op = BINOPS[opi];
+        let src = format!("{} {} {}", a0.literal().unwrap(), op, b0.literal().unwrap());
+        out.begin(|| format!("edited tree from `{}`", src));
+        let mut t = match api::build(&src) {
+            Built::Tree(t) => t,
+            _ => return,
+        };
+        let shape_ok = t.children().len() == 1 && t.children()[0].children().len() == 2 && t.children()[0].children().iter().all(|c| matches!(c.operator(), Operator::Const { .. }));
+        if !shape_ok {
+            out.count("edited trees: unexpected shape, skipped");
+            return;
+        }
+        let empty = Ctx::new();
+        let mut hist = vec![format!("build `{}`", src)];
+        let (mut a, mut b, mut cur) = (a0, b0, op);
+        let check = |t: &Node, a: &RV, b: &RV, cur: &'static str, hist: &Vec<String>, out: &mut Out| {
+            let mutable = hist.len() % 2 == 0;
+            let got = if mutable { api::eval_tree_mut(t, &mut Ctx::new()) } else { api::eval_tree(t, &empty) };
+            out.eval();
+            let exp = refop(cur, a, b);
+            if !accept(&exp, &got) {
+                out.violation("binary-operator/edited-tree", hist.join(" ; ") + " ; evaluate", format!("{} {} {} = {}", a.show(), cur, b.show(), show_exp(&exp)), got.show());
+            }
+        };
+        if r.chance(2, 3) {
+            check(&t, &a, &b, cur, &hist, out);
+        }
+        for _ in 0..r.range(1, 4) {
+            match r.below(3) {
+                0 | 1 => {
+                    let k = r.below(2);
+                    let v = if r.chance(1, 2) { random_operand(r) } else { r.pick(&gen::small_pool()).clone() };
+                    *t.children_mut()[0].children_mut()[k].operator_mut() = Operator::Const { value: v.to_value() };
+                    hist.push(format!("operand {} := {}", k, v.show()));
+                    if k == 0 {
+                        a = v
+                    } else {
+                        b = v
+                    }
+                },
+                _ => {
+                    let k2 = r.below(BINOPS.len());
+                    if let Some(d) = &self.donors.bin[k2] {
+                        *t.children_mut()[0].operator_mut() = d.children()[0].operator().clone();
+                        cur = BINOPS[k2];
+                        hist.push(format!("operator := {}", cur));
+                    }
+                },
+            }
+            out.count("tree edits");
+            check(&t, &a, &b, cur, &hist, out);
+        }
+        out.nontrivial(&hist.join(";"));
+        out.sample(|| hist.join(" ; "));
+    }
+}
+
 pub fn selfcheck() -> Result<String, String> {
     // README examples
     let ck = |op: &str, a: RV, b: RV, want: RV| -> Result<(), String> {
@@ -377,6 +536,23 @@ pub fn phases(cfg: &Cfg) -> Vec<Box<dyn Phase>> {
         Box::new(Matrix {
             pool: gen::full_pool(),
             trees: trees(),
+        }),
+        Box::new(Twins {
+            trees: trees(),
+            partners: {
+                let mut p = gen::full_pool();
+                for x in [-1.0, -2.0, -3.0, 3.0, 0.5, -0.5, 1e300, -1e300] {
+                    p.push(RV::Float(x));
+                }
+                for x in [-3i64, -2, 2, 3, 5] {
+                    p.push(RV::Int(x));
+                }
+                p
+            },
+        }),
+        Box::new(EditedTrees {
+            n: cfg.n(150_000, 4_000_000),
+            donors: trees(),
         }),
         Box::new(RandomPairs {
             n: cfg.n(3_000_000, 150_000_000),
